@@ -95,6 +95,151 @@ def shaper_default(tree, name):
     raise Fail("Shaper.__init__ has no parameter %s" % name)
 
 
+# ---- C15-F7 / C15-F8 (appended): what RdflibSgraph.add_triple stores for a literal.  Two accepted texts of
+# add_triple + _turn_obj_into_rdflib_element (compared as ASTs: comments, docstrings and layout do not matter).
+_LSG_OLD = '''
+class RdflibSgraph(SGraph):
+    def add_triple(self, a_triple):
+        subj = tune_subj(add_corners_if_it_is_an_uri(a_triple[_S]),
+                         raise_error_if_no_corners=False)
+        prop = tune_prop(add_corners_if_it_is_an_uri(a_triple[_P]),
+                         raise_error_if_no_corners=False)
+        obj = tune_token(add_corners_if_it_is_an_uri(a_triple[_O]),
+                         raise_error_if_no_corners=False)
+
+        self._rdflib_graph.add((self._turn_obj_into_rdflib_element(subj),
+                                self._turn_obj_into_rdflib_element(prop),
+                                self._turn_obj_into_rdflib_element(obj)))
+
+    def _turn_obj_into_rdflib_element(self, model_elem):
+        if type(model_elem) == ModelIRI or type(model_elem) == ModelProperty:
+            return URIRef(model_elem.iri)
+        elif type(model_elem) == ModelLiteral:
+            return Literal(lexical_or_value=str(model_elem),
+                           datatype=model_elem.elem_type,
+                           normalize=False)
+        elif type(model_elem) == ModelBnode:
+            return BNode(value=str(model_elem))
+        else:
+            raise ValueError("Unexpected type of element. " + str(model_elem) + ": " + str(type(model_elem)))
+'''
+
+_LSG_NEW = '''
+class RdflibSgraph(SGraph):
+    def add_triple(self, a_triple):
+        subj = tune_subj(add_corners_if_it_is_an_uri(a_triple[_S]),
+                         raise_error_if_no_corners=False)
+        prop = tune_prop(add_corners_if_it_is_an_uri(a_triple[_P]),
+                         raise_error_if_no_corners=False)
+        obj = tune_token(add_corners_if_it_is_an_uri(a_triple[_O]),
+                         raise_error_if_no_corners=False)
+
+        self._rdflib_graph.add((self._turn_obj_into_rdflib_element(subj),
+                                self._turn_obj_into_rdflib_element(prop),
+                                self._turn_obj_into_rdflib_element(obj, raw_token=a_triple[_O])))
+
+    def _turn_obj_into_rdflib_element(self, model_elem, raw_token=None):
+        if type(model_elem) == ModelIRI or type(model_elem) == ModelProperty:
+            return URIRef(model_elem.iri)
+        elif type(model_elem) == ModelLiteral:
+            lexical_form, lang = self._lexical_form_and_lang(model_elem, raw_token)
+            if lang is not None:
+                return Literal(lexical_or_value=lexical_form,
+                               lang=lang)
+            return Literal(lexical_or_value=lexical_form,
+                           datatype=model_elem.elem_type,
+                           normalize=False)
+        elif type(model_elem) == ModelBnode:
+            return BNode(value=str(model_elem))
+        else:
+            raise ValueError("Unexpected type of element. " + str(model_elem) + ": " + str(type(model_elem)))
+
+    @staticmethod
+    def _lexical_form_and_lang(model_elem, raw_token):
+        if raw_token is None or not raw_token.startswith('"') or raw_token.rfind('"') == 0:
+            return str(model_elem), None
+        index_of_last_quotes = raw_token.rfind('"')
+        suffix = raw_token[index_of_last_quotes + 1:]
+        lang = suffix[1:] if suffix.startswith("@") and _LANG_TAG.fullmatch(suffix[1:]) else None
+        return raw_token[1:index_of_last_quotes], lang
+'''
+_LANG_TAG_REGEX = "[a-zA-Z]+(-[a-zA-Z0-9]+)*"
+
+
+def _strip_docstring(fn):
+    if fn.body and isinstance(fn.body[0], ast.Expr) and isinstance(fn.body[0].value, ast.Constant) \
+            and isinstance(fn.body[0].value.value, str):
+        fn.body = fn.body[1:]
+    return fn
+
+
+def _dump_methods(tree, names):
+    """AST dumps (docstrings dropped) of the named methods of RdflibSgraph"""
+    out = {}
+    for node in tree.body:
+        if isinstance(node, ast.ClassDef) and node.name == "RdflibSgraph":
+            for f in node.body:
+                if isinstance(f, ast.FunctionDef) and f.name in names:
+                    out[f.name] = ast.dump(_strip_docstring(f))
+    return out
+
+
+def c15_cache_literal(w, rs):
+    names = ["add_triple", "_turn_obj_into_rdflib_element", "_lexical_form_and_lang"]
+    got = _dump_methods(rs, names)
+    old = _dump_methods(ast.parse(_LSG_OLD), names)
+    new = _dump_methods(ast.parse(_LSG_NEW), names)
+    if got == old:
+        token = False
+    elif got == new:
+        tag = [n.value for n in rs.body if isinstance(n, ast.Assign) and getattr(n.targets[0], "id", "") == "_LANG_TAG"]
+        if len(tag) != 1 or not (isinstance(tag[0], ast.Call) and getattr(tag[0].func, "attr", "") == "compile"
+                                 and len(tag[0].args) == 1 and isinstance(tag[0].args[0], ast.Constant)
+                                 and tag[0].args[0].value == _LANG_TAG_REGEX and not tag[0].keywords):
+            raise Fail("rdflib_sgraph.py: _LANG_TAG is not re.compile(%r)" % _LANG_TAG_REGEX)
+        token = True
+    else:
+        raise Fail("RdflibSgraph.add_triple / _turn_obj_into_rdflib_element: neither the old text (the literal is "
+                   "rebuilt from the model Literal) nor the new one (lexical form and language tag read from the token)")
+    w("(* the local graph of the cache stores a literal rebuilt from the model Literal -- content cut at its first inner")
+    w("   quote, no language tag (false: findings C15-F7, C15-F8) -- or the lexical form between the first and the last")
+    w("   quote of the token with its well-formed language tag (true) *)")
+    w("Definition lsg_token_literal : bool := %s." % ("true" if token else "false"))
+
+
+def c15_all_classes_tau(w):
+    """produce_shape_map_according_to_input, all_classes_mode: sgraph.yield_classes_with_instances() -- the classes
+    of rdf:type whatever the instantiation property (finding C15-F9) -- or
+    sgraph.yield_classes_with_instances(instantiation_property=instantiation_property)"""
+    ty = parse("shexer/utils/factories/triple_yielders_factory.py")
+    f = find_def(ty, "produce_shape_map_according_to_input")
+    calls = [n for n in ast.walk(f) if isinstance(n, ast.Call) and isinstance(n.func, ast.Attribute)
+             and n.func.attr == "yield_classes_with_instances"]
+    if len(calls) != 1 or not (isinstance(calls[0].func.value, ast.Name) and calls[0].func.value.id == "sgraph"):
+        raise Fail("produce_shape_map_according_to_input: expected one sgraph.yield_classes_with_instances(...)")
+    c = calls[0]
+    if not c.args and not c.keywords:
+        passes = False
+    elif (not c.args and len(c.keywords) == 1 and c.keywords[0].arg == "instantiation_property"
+          and isinstance(c.keywords[0].value, ast.Name) and c.keywords[0].value.id == "instantiation_property") or \
+         (not c.keywords and len(c.args) == 1 and isinstance(c.args[0], ast.Name) and c.args[0].id == "instantiation_property"):
+        passes = True
+    else:
+        raise Fail("produce_shape_map_according_to_input: unexpected arguments of yield_classes_with_instances")
+    # the default the parameterless call falls back to
+    es = parse("shexer/model/graph/endpoint_sgraph.py")
+    g = find_def(es, "yield_classes_with_instances", "EndpointSGraph")
+    names = [a.arg for a in g.args.args]
+    if names != ["self", "instantiation_property"] or len(g.args.defaults) != 1 \
+            or not (isinstance(g.args.defaults[0], ast.Name) and g.args.defaults[0].id == "RDF_TYPE"):
+        raise Fail("EndpointSGraph.yield_classes_with_instances: default instantiation property is not RDF_TYPE")
+    imp = [a.name for n in es.body if isinstance(n, ast.ImportFrom) and n.module == "shexer.consts" for a in n.names]
+    if "RDF_TYPE" not in imp:
+        raise Fail("endpoint_sgraph.py: RDF_TYPE is not shexer.consts.RDF_TYPE")
+    w("(* all_classes_mode against an endpoint lists the classes of the instantiation property (true) or of RDF_TYPE (false) *)")
+    w("Definition all_classes_passes_tau : bool := %s." % ("true" if passes else "false"))
+
+
 def main():
     out = ["(* GENERATED by tools/gen_consts_c15.py from /repo -- do not edit. *)",
            "From Coq Require Import List Ascii String ZArith Bool.",
@@ -271,6 +416,10 @@ def main():
         raise Fail("class selector: LIMIT rule not recognised")
     w("Definition class_selector_filters_blank_subjects : bool := true.")
     w("Definition class_selector_limit_from : Z := 0%Z.   (* 'LIMIT k' is appended iff not (k < 0) *)")
+
+    w("")
+    c15_cache_literal(w, rs)
+    c15_all_classes_tau(w)
 
     text = "\n".join(out) + "\n"
     old = None
